@@ -56,6 +56,7 @@ func c14Check2(cs []tcue, d int64, filler bool, d2 int64) string {
 		snaps[k] = snapItem(it)
 	}
 	ptrs := append([]*astisub.Item(nil), sub.Items...)
+	someMetadata(sub, len(cs)+int(d%7))
 	// another list of this process got a filler earlier, and its owner has since edited that cue in place
 	pristine := ""
 	if filler {
@@ -327,6 +328,7 @@ func c15Check(cs []tcue, a1, d1, a2, d2 int64) string {
 		snaps[k] = snapItem(it)
 	}
 	ptrs := append([]*astisub.Item(nil), sub.Items...)
+	someMetadata(sub, int(uint64(a1+d2)%7))
 	if p := guard(func() {
 		sub.ApplyLinearCorrection(time.Duration(a1), time.Duration(d1), time.Duration(a2), time.Duration(d2))
 	}); p != "" {
@@ -400,6 +402,10 @@ func c15CLI(c *fw.Ctx) fw.Outcome {
 	sl := fw.Pick(r, c15Slopes)
 	d1 := a1 + int64(r.Range(0, 1500))*1e6
 	d2 := d1 + (a2-a1)*sl[0]/sl[1]
+	if r.Bool() {
+		// the reference points given latest first: the line through two points does not depend on their order
+		a1, d1, a2, d2 = a2, d2, a1, d1
+	}
 	in := filepath.Join(c.TmpDir(), "in.srt")
 	out := filepath.Join(c.TmpDir(), "out.srt")
 	os.WriteFile(in, []byte(simpleSRT(cs)), 0o644)
@@ -477,7 +483,7 @@ func init() {
 	})
 
 	c15Lib := func(tier string) int64 { return tierN(tier, 60000, 2000000) }
-	c15Cli := func(tier string) int64 { return tierN(tier, 24, 200) }
+	c15Cli := func(tier string) int64 { return tierN(tier, 96, 1000) }
 	fw.Register(&fw.Property{
 		ID:          "C15",
 		Level:       "exploration",
